@@ -352,7 +352,7 @@ class Func:
 
 LINK = ('private', 'internal', 'linkonce_odr', 'weak_odr', 'external', 'dso_local', 'local_unnamed_addr',
         'unnamed_addr', 'hidden', 'available_externally', 'common', 'weak', 'thread_local', 'dso_preemptable',
-        'linkonce', 'appending', 'protected')
+        'linkonce', 'appending', 'protected', 'fastcc', 'ccc', 'coldcc')
 
 def cname(n):
     n = n.strip('%@"')
